@@ -89,6 +89,8 @@ type script struct {
 	// payload (item i carries the request payload of routedOps[i-1]); seen: the identifiers the handlers found in the payloads
 	byType bool
 	seen   []string
+	// attempts[i]: how often the handler of item i has run (an application's retrying item middleware)
+	attempts map[int]int
 }
 
 func phToken(s string) []int {
@@ -166,6 +168,15 @@ func (handler) HandleOperation(ctx context.Context, req kmip.OperationPayload) (
 			sc.nest(ctx)
 		}
 		return &payloads.GetResponsePayload{UniqueIdentifier: pl.UniqueIdentifier}, nil
+	case "retriedSuccess":
+		sc.mu.Lock()
+		sc.attempts[i]++
+		first := sc.attempts[i] == 1
+		sc.mu.Unlock()
+		if first {
+			return nil, errors.New("transient failure")
+		}
+		return &payloads.GetResponsePayload{UniqueIdentifier: pl.UniqueIdentifier}, nil
 	case "successClearsId":
 		kmipserver.SetIdPlaceholder(ctx, "") // storing the empty placeholder is a store like any other
 		return &payloads.GetResponsePayload{UniqueIdentifier: pl.UniqueIdentifier}, nil
@@ -192,6 +203,16 @@ func newExecutor() *kmipserver.BatchExecutor {
 	ex := kmipserver.NewBatchExecutor()
 	for _, op := range routedOps {
 		ex.Route(op, handler{})
+	}
+	if os.Getenv("VERIF_RETRY") == "1" {
+		// an application's item middleware that tries a failed item once more
+		ex.BatchItemUse(func(next kmipserver.BatchItemNext, ctx context.Context, bi *kmip.RequestBatchItem) (*kmip.ResponseBatchItem, error) {
+			resp, err := next(ctx, bi)
+			if err != nil {
+				return next(ctx, bi)
+			}
+			return resp, err
+		})
 	}
 	return ex
 }
@@ -393,7 +414,7 @@ type outcome struct {
 var reuseMsg *kmip.RequestMessage
 
 func execute(ex *kmipserver.BatchExecutor, parent context.Context, rid, uid int, q Req, trace *vh.Writer, yield bool, nest ...func(ctx context.Context)) (out outcome) {
-	sc := &script{rid: rid, uid: uid, items: q.Items, trace: trace, yield: yield, byType: omitIds}
+	sc := &script{rid: rid, uid: uid, items: q.Items, trace: trace, yield: yield, byType: omitIds, attempts: map[int]int{}}
 	if len(nest) > 0 && len(q.Items) > 0 {
 		sc.nest, sc.nestAt = nest[0], 1+uid%len(q.Items)
 	}
